@@ -55,6 +55,9 @@ META["rule"] += (
 META["rule"] += (
     " " + 'Added after the seventh round: node-weight totals on every path; spatial subclasses saved and loaded as directed networks too; results edited by the caller; Fortran-ordered similarity; Python-made clones.')
 
+META["rule"] += (
+    " " + 'Added after the eighth round: set_edge_list on an object that held a larger network; every clone (copy, deepcopy, pickle, undirected copy) is changed afterwards and the original judged again.')
+
 FORMATS = ["graphml", "graphmlz", "pickle", "gml"]
 
 
@@ -224,6 +227,20 @@ def one_input(ctx, inp, cid, tmp, heavy=True):
         return with_attr(o)
     build("set_edge_list", via_set)
 
+    # an object that held a larger network before: without n_nodes the node
+    # count is the one the list implies
+    if len(edges) and int(edges.max()) + 1 == n:
+        def via_set_larger():
+            o = Network(adjacency=np.ones((n + 2, n + 2), dtype=int)
+                        - np.eye(n + 2, dtype=int), directed=d,
+                        silence_level=3)
+            o.degree()
+            o.set_edge_list(edges)
+            # (node weights of the new size are the caller's to supply)
+            o.node_weights = w
+            return with_attr(o)
+        build("set_edge_list-on-a-larger-object", via_set_larger)
+
     def ig():
         g = igraph.Graph(n=n, edges=[tuple(map(int, e)) for e in edges],
                          directed=d)
@@ -340,6 +357,29 @@ def one_input(ctx, inp, cid, tmp, heavy=True):
         build("copy", base.copy)
         if not d:
             build("undirected_copy", base.undirected_copy, want_attr=False)
+        # a clone is an object of its own: what is done to it afterwards is
+        # not done to the original
+        clones = [("copy", base.copy),
+                  ("copy.deepcopy", lambda: _copy.deepcopy(base)),
+                  ("pickle-round-trip",
+                   lambda: _pickle.loads(_pickle.dumps(base)))]
+        if not d:
+            clones.append(("undirected_copy", base.undirected_copy))
+        for cname_, mkc in clones:
+            okc, c_ = ctx.call(mkc)
+            if not okc:
+                continue
+            try:
+                c_.node_weights = np.full(n, 9.5)
+                if W is not None and A.any():
+                    c_.set_link_attribute("w", np.full((n, n), -1.0))
+                c_.adjacency = np.zeros((n, n), dtype=int) if A.any() else \
+                    np.ones((n, n), dtype=int) - np.eye(n, dtype=int)
+            except Exception:  # noqa
+                ctx.count("clone_change_refused")
+            ctx.count("originals_checked_after_the_clone_changed")
+            check_net(ctx, base, inp,
+                      f"original-after-its-{cname_}-was-changed", cid)
         else:
             ok, u = ctx.call(base.undirected_copy)
             if ok:
